@@ -55,10 +55,14 @@ def readPacket (s : Schema) (b : Bytes) : RP :=
     | .struct dv, _, _ => if isPresent (fieldVal (subFields s.fields 6) dv 7) then .ok pkt else .err
     | _, .struct iv, _ =>
       let f := subFields s.fields 5
+      let lastDigest := match fieldVal f iv 7 with
+        | .name n => (match n.getLast? with | some c => c.typ == 2 | none => false)
+        | _ => false
       if !isPresent (fieldVal f iv 7) then .err
       else if isPresent (fieldVal f iv 46) && !isPresent (fieldVal f iv 36) then .err
-      else if isPresent (fieldVal f iv 36) then .unknown
-      else .ok pkt
+      else if !isPresent (fieldVal f iv 36) then (if lastDigest then .err else .ok pkt)   -- digest without parameters
+      else if !lastDigest then .err            -- parameters without a trailing digest component
+      else .unknown                             -- SHA-256 comparison
     | _, _, .struct _ => match lpInfo with
       | some i => if i.fragment.isSome then .ok pkt else .err
       | none => .err
